@@ -422,6 +422,37 @@ def still_fails(drv, listed, stmt, analyzer, ref):
     return disagrees(o_ref, o, analyzer)
 
 
+def nested_queries(n, root=True):
+    """every query node strictly inside the statement (derived tables, subqueries, CTE bodies, set-operation branches)"""
+    if isinstance(n, list):
+        if not root and n and n[0] in ("select", "setop", "with") and isinstance(n[0], str) and len(n) in (3, 7):
+            yield n
+        for x in n:
+            yield from nested_queries(x, False)
+
+
+def shrink_stmt(stmt, pred, budget=120):
+    """first hoist: replace the statement by one of its nested queries while the failure persists (sqlcheck.shrink only simplifies
+    locally), then the shared local shrinker"""
+    cur, n = stmt, 0
+    improved = True
+    while improved and n < 40:
+        improved = False
+        for q in sorted(nested_queries(cur), key=lambda q: len(json.dumps(q))):
+            n += 1
+            cand = ["query", copy.deepcopy(q), False]
+            try:
+                if pred(cand):
+                    cur = cand; improved = True; break
+            except Infra:
+                raise
+            except Exception:
+                continue
+            if n >= 40:
+                break
+    return sqlcheck.shrink(cur, pred, budget=budget)
+
+
 # ------------------------------------------------------------------------------------------------ the check
 def run(chk):
     if not chk.lean.driver_ok:
@@ -558,7 +589,7 @@ def run(chk):
             continue
         reported.add(d)
         stmt = cases[ci][1]
-        small = sqlcheck.shrink(stmt, lambda c: still_fails(drv, listed, c, d, ref), budget=120)
+        small = shrink_stmt(stmt, lambda c: still_fails(drv, listed, c, d, ref))
         info, rr = eval_stmt(drv, small, [ref, d])
         rec = {"kind": "agree", "ast": small, "sql": info["sql"], "analyzer": d, "reference": ref,
                "reference_outcome": outcome(rr[0]), "analyzer_outcome": outcome(rr[1], tables_only=d == LEGACY),
